@@ -38,6 +38,9 @@ func runC12(w *World, r *Report) {
 	c12Order(w, r, ef, exec)
 	c12Policy(w, r, ef, exec)
 	c12Gate(w, r, ef, exec)
+	r.Rule("C12/WIRING", "DisableHooks is never fed from a differently named option and is carried into the operations started on behalf of another (upgrade --install, atomic rollback/uninstall)", 3)
+	checkWiring(w, r, "C12/WIRING", map[string]bool{"DisableHooks": true})
+	checkCarried(w, r, "C12/WIRING", []string{"DisableHooks"})
 }
 
 func c12FindExecHook(w *World) *ssa.Function {
